@@ -52,7 +52,7 @@ type presInterp struct {
 	relem   *pelem // receiver element at the current position (existing or created)
 	created bool
 	err     string
-	stop    bool // continue / return in body
+	stop    bool            // continue / return in body
 	assume  map[string]bool // value assumptions: role -> value is zero
 	forks   []bool
 	nfork   int
@@ -521,14 +521,14 @@ func ratOf(s string) (*big.Rat, bool) {
 
 // kernelLoop describes one element loop of a kernel method.
 type kernelLoop struct {
-	body     []ast.Stmt
-	iterVar  types.Object
-	joint    bool   // joint iterator over supports
-	counted  bool   // for i := 0; i < n; i++
-	roles    []string // container roles visited by the joint iterator (in order r, a[, b])
-	typed    bool
-	pos      token.Pos
-	branch   string // enclosing top-level branch condition (VdivS)
+	body    []ast.Stmt
+	iterVar types.Object
+	joint   bool     // joint iterator over supports
+	counted bool     // for i := 0; i < n; i++
+	roles   []string // container roles visited by the joint iterator (in order r, a[, b])
+	typed   bool
+	pos     token.Pos
+	branch  string // enclosing top-level branch condition (VdivS)
 }
 
 // findKernelLoops finds the element loops of a kernel (top level or inside a top-level if/else).
